@@ -36,7 +36,7 @@ func (exec *Executor) execSubscript(
 		}
 	}
 
-	if !exec.ignoreStructuralErrors && (indexFrom < 0 || indexFrom > indexTo || indexTo >= arraySize) {
+	if !exec.autoWrap() && (indexFrom < 0 || indexFrom > indexTo || indexTo >= arraySize) {
 		return 0, 0, fmt.Errorf(
 			"%w: jsonpath array subscript is out of bounds",
 			ErrVerbose,
